@@ -19,7 +19,10 @@ EXPLANATION = (
     "arithmetic Assert (overflow, division by zero) must be a constant-step counter on usize/i32, a sum of collection lengths, a "
     "division by a non-zero constant, an unsigned subtraction behind a dominating comparison guard, or reviewed; an unguarded "
     "unsigned subtraction/multiplication is a violation.  R-C20-4 inventories all remaining sites against the reviewed table "
-    "(reported, not alarmed, unless a reviewed key gains sites).  NOT decided: termination of loops (only absence of recursion is "
+    "(reported, not alarmed, unless a reviewed key gains sites).  R-C20-6 a buffer sized only under a condition is indexed only "
+    "under that condition.  R-C20-7 the unwrapped edge lookups (eigenvector, Louvain, clustering) rely on `the pair came from the "
+    "adjacency, so the edge is stored`: the keyed accesses to `edges`/`edges_map` in add_edge and in the crate functions whose "
+    "result is unwrapped obey the stores' canonical-key discipline (same rule as R-C02-3).  NOT decided: termination of loops (only absence of recursion is "
     "reported), panics inside dependencies, allocation failure."
 )
 TRUSTED = ["rustc MIR construction incl. overflow/div assert terminators (extracted with -C overflow-checks=on)", "std semantics of Option/Result/HashMap/Vec"]
@@ -250,6 +253,7 @@ def run(ctx):
     rule3(ctx, prog, flows, all_sites, review, handled)
     rule4(ctx, prog, flows, all_sites, review, handled)
     rule6(ctx, prog, flows)
+    rule7(ctx, prog, flows, all_sites)
     # R-C20-5: recursion inventory
     cg = prog.call_graph()
     rec = [c for c in prog.sccs(set(prog.bodies)) if len(c) > 1 or c[0] in cg.get(c[0], ())]
@@ -319,6 +323,26 @@ def spec_discharge(prog, flows, guards, body, site_bb, field, value, depth=0, se
             return None
         why.append("%s: %s" % (cb.short.split("::")[-1], r))
     return "all %d call sites: %s" % (len(callers), "; ".join(sorted(set(why)))[:300])
+
+
+def rule7(ctx, prog, flows, all_sites):
+    """unwrapped edge lookups (eigenvector, Louvain, clustering) are justified by `the pair was taken from the
+    adjacency, so the edge is stored`; that argument needs lookup and insertion to canonicalise the key alike"""
+    from props.c02 import key_discipline
+
+    roots = set()
+    for (b, fl, s) in all_sites:
+        if s.kind != "unwrap":
+            continue
+        oc = origin_call(fl, s.operand)
+        if oc is not None and oc.callee:
+            tp = oc.callee.target_path(prog)
+            if tp:
+                roots.add(tp)
+    ctx.counters["unwrapped_crate_callees"] = len(roots)
+    add_edge = prog.one("creation::Graph::add_edge")
+    only = prog.reachable_bodies(sorted(roots | {add_edge.path}))
+    key_discipline(ctx, prog, flows, "R-C20-7", only, 5, 5, why=" -- restricted to add_edge and the crate functions whose result is unwrapped somewhere: an edge taken from the adjacency is found again only if lookup and insertion canonicalise alike")
 
 
 def rule1(ctx, prog, flows, guards, kinds, all_sites, review, handled):
